@@ -399,38 +399,50 @@ func C09(c *Ctx) {
 	}
 	// ---- R2
 	canon := c.P.Func("core", "", "Canonicalize")
-	bsStores := storesToPkg(exec, "core", "Execution", "Bs")
+	var bsStores []*ssa.Store
+	for _, f := range pkgClosure(exec) {
+		bsStores = append(bsStores, storesToPkg(f, "core", "Execution", "Bs")...)
+	}
 	okCanon := len(bsStores) > 0
 	whyC := "Exec never sets the execution's bindings"
+	scope := pkgClosure(exec)
+	isCanonResult := func(v ssa.Value) bool {
+		ex, ok := v.(*ssa.Extract)
+		if !ok {
+			return false
+		}
+		cl, ok := ex.Tuple.(*ssa.Call)
+		return ok && cl.Common().StaticCallee() == canon && ex.Index == 0
+	}
 	for _, st := range bsStores {
-		for _, d := range phiDefs(st.Val, nil, map[ssa.Value]bool{}) {
+		for _, d := range deepDefs(st.Val, scope) {
 			if ssau.IsNilConst(d) {
 				continue
 			}
-			d = ssau.Strip(d)
-			if ct, isCT := d.(*ssa.ChangeType); isCT {
-				d = ct.X
-			}
-			from := false
-			// a value that already has the Go type match.Bindings can only have been handed to the script by the host
+			var ta *ssa.TypeAssert
 			if ex, isEx := d.(*ssa.Extract); isEx && ex.Index == 0 {
-				if ta, isTA := ex.Tuple.(*ssa.TypeAssert); isTA && isBindingsT(ta.AssertedType) {
-					from = true
-				}
+				ta, _ = ex.Tuple.(*ssa.TypeAssert)
+			} else if t2, isTA := d.(*ssa.TypeAssert); isTA {
+				ta = t2
 			}
-			// typeassert of Canonicalize's result
-			for _, s := range phiDefs(d, nil, map[ssa.Value]bool{}) {
-				if ex, isEx := s.(*ssa.Extract); isEx && ex.Index == 0 {
-					if ta, isTA := ex.Tuple.(*ssa.TypeAssert); isTA {
-						if ex2, isEx2 := ta.X.(*ssa.Extract); isEx2 {
-							if cl, isC := ex2.Tuple.(*ssa.Call); isC && cl.Common().StaticCallee() == canon {
-								from = true
-							}
+			ok := false
+			if ta != nil {
+				if isBindingsT(ta.AssertedType) {
+					ok = true // a value that already has the Go type match.Bindings can only have been handed to the script by the host
+				} else {
+					ok = true
+					srcs := deepDefs(ta.X, scope)
+					if len(srcs) == 0 {
+						ok = false
+					}
+					for _, src := range srcs {
+						if !isCanonResult(src) {
+							ok = false
 						}
 					}
 				}
 			}
-			if !from {
+			if !ok {
 				okCanon, whyC = false, "the returned bindings can be "+d.String()+", which did not go through the JSON canonicalisation: Go values that no reloaded state holds (e.g. int64 in an array) get into the state"
 			}
 		}
